@@ -19,7 +19,9 @@ RULE = ("tree lists (1-3 trees, 1-8 leaves quick / up to 30 thorough; polytomies
         "or a leaf is anonymous or the list has more than one tree")
 MODELLED_NOT_VERIFIED = [
     "C02: Newick side (escape_nexus_token, NexusTokenizer, NewickWriter, NewickReader statement parser, NexusTaxonSymbolMapper lookup order, "
-    "rooting/weight comments) is a hand-written Lean model tied to the code by per-case comparison (ops escape, tokens, write, parse)",
+    "rooting/weight comments) is a hand-written Lean model tied to the code by per-case comparison (ops escape, tokens, write, parse); the NEXUS "
+    "TREES block writer and reader (_write_trees_block/_set_and_write_translate_block, _parse_trees_block/_parse_tree_statement/"
+    "_parse_translate_statement) likewise (ops nexus, nexus-text, taxlabels)",
     "C02: the NEXUS block grammar (TAXA/TREES/TRANSLATE statements) and NeXML (xml.etree parsing, attribute quoting, id maps) are not "
     "modelled: they are exercised by the real round-trip oracle only",
     "C02: float <-> text is Python's repr/float (lengths are opaque strings in the model); case folding is a parameter of the model "
@@ -35,8 +37,10 @@ EXPLANATION = ("Theorems (Props/C02.lean, all about the definitions drv_c02 runs
                "statements of a NEXUS block under the NEXUS symbol mapper (label before number, TRANSLATE token before label) - partial because "
                "the block grammar around the statements is not modelled; nexus_translate_roundtrip: end to end on the original trees (labels -> "
                "tokens by the writer's table, tokens -> labels by the reader's); taxlabels_tokens: the TAXLABELS list the writer emits tokenizes "
-               "back to the namespace labels in order; newick_roundtrip_tree_undefined. NEXUS block grammar (keywords, TRANSLATE statement text, "
-               "TREE name =) and NeXML: no model and no theorem - real round-trip oracle only; float <-> text is trusted.")
+               "back to the namespace labels in order; newick_roundtrip_tree_undefined; nexus_trees_roundtrip: the TREES block text the model writer "
+               "produces (BEGIN TREES; TREE name = statement ... END;, no TRANSLATE) read by the model's block reader gives every tree back under "
+               "its name. The block reader/writer with a TRANSLATE statement is modelled and compared (ops nexus, nexus-text) but not proved; the TAXA "
+               "block keywords and NeXML have no model and no theorem - real round-trip oracle only; float <-> text is trusted.")
 
 SCHEMAS = ("newick", "nexus", "nexml")
 NONASCII = u"éÉßñλЖж"        # includes the case pairs e-acute / E-acute and ZHE / zhe (each has a one-character str.lower())
@@ -212,7 +216,8 @@ def gen_case(rng, schema=None, max_leaves=8, force=None):
             if nd[0] == "@int":
                 nd[0] = rest.pop() if rest else None
         trees.append({"spec": spec, "rooted": rng.choice([True, False, None]),
-                      "weight": rng.choice([None, None, 0.5, 2.0, 0.125, "3/8", "5/2"])})
+                      "weight": rng.choice([None, None, 0.5, 2.0, 0.125, "3/8", "5/2"]),
+                      "name": (gen_label(rng) or None) if rng.random() < 0.3 else None})
     # trees without any leaf taxon: every leaf anonymous (taxa, if any, only on internal nodes); in a list, all trees or only some
     notax = rng.random() < 0.1
     if notax:
@@ -275,6 +280,7 @@ def build_treelist(dendropy, case):
         tree = dendropy.Tree(taxon_namespace=tns, seed_node=go(t["spec"]))
         tree.is_rooted = t["rooted"]
         tree.weight = tu.Fraction(t["weight"]) if isinstance(t.get("weight"), str) else t.get("weight")
+        tree.label = t.get("name")
         tl.append(tree)
     return tl
 
@@ -413,7 +419,7 @@ def _weight_value(expr):
     return float(parts[0])
 
 
-def canon_model(line, stw):
+def canon_model(line, stw, named=False):
     """model `parse`/`rt` output -> canonical python value (float() applied to length / weight tokens, as the reader does)"""
     if line == "ERR":
         return "ERR"
@@ -423,6 +429,10 @@ def canon_model(line, stw):
         parts = rest.split(" | ")
         trees = []
         for p in parts[1:]:
+            name = None
+            if named:
+                nm, p = p.split(" ", 1)
+                name = unhex6(nm)
             r, w, nested = p.split(" ", 2)
             toks = nested.replace("(", " ( ").replace(")", " ) ").split()
             pos = [0]
@@ -441,7 +451,7 @@ def canon_model(line, stw):
             if stw:
                 wv = DEFAULT_WEIGHT if w == "-" else _weight_value(unhex6(w))
                 wv = float(wv).hex()
-            trees.append([{"R": True, "U": False, "N": None}[r], wv, tree])
+            trees.append(([name] if named else []) + [{"R": True, "U": False, "N": None}[r], wv, tree])
         return [ns, trees]
     except (ValueError, ZeroDivisionError, OverflowError):
         return "ERR"
@@ -547,6 +557,27 @@ def run_roundtrip(ctx, dendropy, case, pending):
         else:
             ctx.count("nexus_layout_not_recognised")
             ctx.note("NEXUS TREE statements not found where expected: the model comparison of this case was skipped")
+        # the whole TREES block: the model's reader on the library's text, and the model's text against the library's (token streams)
+        b0 = text.upper().find("BEGIN TREES;") if text.isascii() else re.compile("BEGIN TREES;", re.I).search(text).start() if re.compile("BEGIN TREES;", re.I).search(text) else -1
+        if b0 >= 0:
+            block = text[b0:]
+            names = [(t.get("name") or str(k + 1)) for k, t in enumerate(case["trees"])]
+            expect = "ERR"
+            if tl2 is not None:
+                ci = canon_impl(tl2, stw)
+                expect = [ci[0], [[tl2[k].label] + x for k, x in enumerate(ci[1])]]
+            pending.append(("nexus %s %s %s %s" % (ropts_bits(ropts), case_map(block, *case["labels"]),
+                                                   ",".join(hex6(x) for x in case["labels"]) or "-", hex6(block)),
+                            ("nexus", case, stw), expect))
+            parts = []
+            for nm, t in zip(names, case["trees"]):
+                w = t.get("weight")
+                parts.append("%s %d %s %s" % (hex6(nm), rooted_code(t["rooted"]), hex6(None if w is None else "{}".format(w)),
+                                              enc_spec(t["spec"], token_of)))
+            pending.append(("nexus-text %s %s %d %s" % (wopts_bits(wopts), ",".join(hex6(x) for p_ in tokmap for x in p_) or "-",
+                                                        len(parts), " ".join(parts)), ("nexus-text", case, pu), block))
+        else:
+            ctx.count("nexus_layout_not_recognised")
         # TAXLABELS list: (i) the model's text for it and the library's tokenize alike; (ii) its tokens are the labels, in order
         def find_ci(word, start=0):
             m_ = re.compile(re.escape(word), re.I).search(text, max(start, 0))
@@ -605,15 +636,15 @@ def flush(ctx, pending):
         if m is None:
             continue
         m = m.strip()
-        if op in ("write-stmt", "taxlabels"):
+        if op in ("write-stmt", "taxlabels", "nexus-text"):
             stage2.append((op, case, extra, impl, "<bad-op>" if m == "bad-op" else (unhex6(m) or "")))
             continue
         ctx.compared()
         if op == "token-texts":
             if _tok_texts(m) != impl or not m.endswith(("EOF0", "EOF1")):
                 ctx.disagree(op, case, " ".join(impl), m)
-        elif op in ("parse", "parse-nexus", "parse-text", "rt"):
-            got = canon_model(m, extra)
+        elif op in ("parse", "parse-nexus", "parse-text", "rt", "nexus"):
+            got = canon_model(m, extra, named=(op == "nexus"))
             if got != impl:
                 ctx.disagree(op, case, json.dumps(impl)[:400], json.dumps(got)[:400] + " <- " + m[:200])
         else:
